@@ -1170,8 +1170,10 @@ def dot(first, second):
         return second[:, :] * first
     if isinstance(second, WireVector):
         return first[:, :] * second
-    if (first.rows == 1 and first.columns == 1) \
-            or (second.rows == 1 and second.columns == 1):
+    if first.rows == 1 and first.columns == 1:
+        # first[:, :] is a WireVector here, which cannot be multiplied by a Matrix
+        return second[:, :] * first[0, 0]
+    if second.rows == 1 and second.columns == 1:
         return first[:, :] * second[:, :]
 
     # Second case when it is Inner Product
